@@ -250,7 +250,7 @@ impl<'t> Gen<'t> {
         let a = self.attrs[i].take().expect("gen: stream used twice");
         let repl = match &op {
             UnOp::Shuffle | UnOp::Gb(..) | UnOp::Broadcast | UnOp::Win(..) | UnOp::Extra(ExtraOp::KeyedChain(..)) | UnOp::Extra(ExtraOp::UniqueKeys) => Repl::Unlimited,
-            UnOp::Repl(r) => *r,
+            UnOp::Repl(r) | UnOp::RepartBy(r, _) => *r,
             UnOp::Gl(..) | UnOp::WinAll(..) => Repl::One,
             _ => a.repl,
         };
@@ -434,6 +434,20 @@ impl<'t> Gen<'t> {
         }
     }
 
+    /// `repartition_by`: any replication requirement (the link is all-to-all), a partition function
+    /// with few or many distinct values
+    pub fn gen_repart(&mut self) -> UnOp {
+        let cand = [
+            Repl::One,
+            Repl::Unlimited,
+            Repl::Limited(1 + self.t.draw(4) as u64),
+            Repl::Host,
+        ];
+        let r = cand[self.t.draw(4) as usize];
+        let m = [1u16, 2, 3, 7, 400][self.t.draw(5) as usize];
+        UnOp::RepartBy(r, m)
+    }
+
     /// extend the plan with one random step on random open streams
     pub fn grow(&mut self, allow_loop: bool) {
         let open = self.open();
@@ -497,7 +511,7 @@ impl<'t> Gen<'t> {
                 self.un(i, UnOp::Shuffle);
             }
             2 => {
-                let op = self.gen_repl(i);
+                let op = if self.t.draw(3) == 0 { self.gen_repart() } else { self.gen_repl(i) };
                 self.un(i, op);
             }
             3 => {
@@ -622,7 +636,7 @@ impl<'t> Gen<'t> {
         fn push_un(body: &mut Vec<Step>, cur: &mut usize, nlocal: &mut usize, cur_repl: &mut Repl, op: UnOp) {
             *cur_repl = match &op {
                 UnOp::Shuffle | UnOp::Gb(..) | UnOp::Broadcast | UnOp::Win(..) | UnOp::Extra(ExtraOp::KeyedChain(..)) | UnOp::Extra(ExtraOp::UniqueKeys) => Repl::Unlimited,
-                UnOp::Repl(r) => *r,
+                UnOp::Repl(r) | UnOp::RepartBy(r, _) => *r,
                 UnOp::Gl(..) | UnOp::WinAll(..) => Repl::One,
                 _ => *cur_repl,
             };
